@@ -1,3 +1,4 @@
+use std::io::Write;
 use std::ops::Neg;
 
 use crate::{Hash, OpCodes, PublicKey, Script, ScriptBit, SigHash, SighashSignature, ToHex};
@@ -626,7 +627,7 @@ fn checksig(state: &mut State, txscript: &mut TxScript) -> Result<bool, Interpre
     let public_key = state.stack.pop_bytes()?;
     let signature = state.stack.pop_bytes()?;
     let sighash_byte = signature.last().cloned();
-    println!("Sighash Byte: {:#?}", sighash_byte);
+    let _ = writeln!(std::io::stdout(), "Sighash Byte: {:#?}", sighash_byte);
     let sighash = match sighash_byte {
         Some(x) => SigHash::try_from(x).map_err(|_| InterpreterError::FailedToConvertSighash)?,
         None => return Err(InterpreterError::InvalidStackOperation("could not read Sighash flag from signature")),
@@ -650,7 +651,7 @@ fn multisig(state: &mut State, txscript: &mut TxScript) -> Result<bool, Interpre
     let mut pubkeys = state.stack.split_off(state.stack.len() - pubkey_count as usize);
     pubkeys.reverse();
 
-    println!("Pubkeys: {:?}", pubkeys.iter().map(|x| x.to_hex()).collect::<Vec<String>>());
+    let _ = writeln!(std::io::stdout(), "Pubkeys: {:?}", pubkeys.iter().map(|x| x.to_hex()).collect::<Vec<String>>());
 
     let sig_count = state.stack.pop_number()?;
     if sig_count < 1 {
@@ -710,7 +711,7 @@ fn calculate_sighash_preimage(txscript: &mut TxScript, sighash: SigHash, codesep
         Some(v) => Script::from_script_bits(v.to_script_bits()[script_offset..].to_vec()),
         None => return Err(InterpreterError::InvalidStackOperation("TxIn at given index does not have locking script provided")),
     };
-    println!("Unsigned script: {}", unsigned_script.to_asm_string());
+    let _ = writeln!(std::io::stdout(), "Unsigned script: {}", unsigned_script.to_asm_string());
 
     let satoshis = match txscript.tx.get_input(txscript.input_index).and_then(|x| x.get_satoshis()) {
         Some(v) => v,
